@@ -15,8 +15,8 @@ from TexSoup import TexSoup
 
 ATOMS = ['\\begin{a}', '\\end{a}', '\\item', '\\x', '\\left(', '\\\\', '\\newcommand', '\\begin{verbatim}',
          '\\end{verbatim}', '{', '}', '[', ']', '$', '%', 'a', ' ', '\n', '\\', '*', '\\[', '\\]', '$$', '\\begin{equation}',
-         '\\end{equation}', '\\begin', '\\end', '(', '\\%', '\x00', '\\end {a}', '\\begin{ a}', '\\begin[a]']
-SMALL = ['\\begin{a}', '\\end{a}', '\\x', '{', '}', '[', ']', '$', '%', 'a', ' ', '\n', '\\']
+         '\\end{equation}', '\\begin', '\\end', '(', '\\%', '\x00', '%c\n', '\\end {a}', '\\begin{ a}', '\\begin[a]']
+SMALL = ['\\begin{a}', '\\end{a}', '\\x', '{', '}', '[', ']', '$', '%', 'a', ' ', '\n', '\\', '%c\n']
 ALLOWED = (EOFError, TypeError, AssertionError)
 PROP = None
 
